@@ -28,6 +28,8 @@ import (
 	"encoding/hex"
 	"fmt"
 	"os"
+	"runtime/debug"
+	"sort"
 	"strings"
 	"sync"
 	"testing"
@@ -98,7 +100,9 @@ func c08RoleAllows(to Status, role string) bool {
 	case Proposing:
 		return role == "leader"
 	case Proposed:
-		return role == "remainer" || role == "joiner" || role == "leaver"
+		// "leader": a node can be told its own proposal by gossip when it does not hold it any more (here: the
+		// harness forges well-formed proposals with the leader's real key, and the receivers gossip them on)
+		return role != "outsider"
 	case Accepted, Rejected:
 		return role == "remainer"
 	case Joined:
@@ -161,11 +165,22 @@ func c08MakeCase(idx int) c08Case {
 func TestVF_C08_Histories(t *testing.T) {
 	run := vfNewRun("C08", "dkgnet")
 	defer run.Finish()
+	defer func() {
+		// the distinct (state-before > state-after / role) edges actually observed, for the evidence file
+		run.mu.Lock()
+		var edges []string
+		for e := range run.sets["edges"] {
+			edges = append(edges, e)
+		}
+		run.mu.Unlock()
+		sort.Strings(edges)
+		run.Note("edges observed: " + strings.Join(edges, " "))
+	}()
 	// gossip retries of the real code: 7 attempts with 200 ms linear back-off (5.6 s per refused packet). The
 	// histories refuse packets all the time; the package's own knob is turned down so that a history stays in
 	// the millisecond range. No logic is changed.
 	backoff = 2 * time.Millisecond
-	nCases := vfPick(320, 3200)
+	nCases := vfPick(600, 8000)
 	par := 16
 	base, err := os.MkdirTemp("", "vf-c08-")
 	if err != nil {
@@ -243,6 +258,14 @@ func c08RunHistory(run *vfRun, base string, c c08Case) {
 	nw := vfdNewNet(dir, c.BeaconID, sch, cfg, c.Seed)
 	defer nw.closeAll()
 	h := &c08H{run: run, c: c, net: nw, rng: vfNewRng(c.Seed ^ 0xc08)}
+	nw.onPanic = func(what, dst, val, where, stack string) {
+		if len(stack) > 2500 {
+			stack = stack[:2500]
+		}
+		run.Violation(fmt.Sprintf("C08/delivery-panicked/%s/%s", what, where),
+			fmt.Sprintf("a %s delivered by the bus to %s made the real Process panic in %s: %s", what, dst, where, val),
+			h.info(map[string]any{"stack": stack}))
+	}
 	keyRng := vfNewRng(c.Seed ^ 0x6b6579)
 	for i := 0; i < c.N0+c.Spare+1; i++ {
 		nd, err := nw.addNode(fmt.Sprintf("h%d.test:%d", i, 5000+i), keyRng, true)
@@ -257,7 +280,7 @@ func c08RunHistory(run *vfRun, base string, c c08Case) {
 	h.outsider = h.all[c.N0+c.Spare]
 
 	h.drive()
-	h.recover()
+	h.recovery()
 
 	nw.addCounters(run)
 	run.Count("history_steps", int64(len(h.steps)))
@@ -320,13 +343,11 @@ func (h *c08H) onWrite(nd *vfdNode, w *vfdWrite) {
 		kind = "savefinished"
 	}
 	h.run.Seen("edges", fmt.Sprintf("%s>%s/%s", from, ca.State, role))
+	h.mu.Lock()
 	if ca.Epoch > h.epochMax {
-		h.mu.Lock()
-		if ca.Epoch > h.epochMax {
-			h.epochMax = ca.Epoch
-		}
-		h.mu.Unlock()
+		h.epochMax = ca.Epoch
 	}
+	h.mu.Unlock()
 	wi := map[string]any{"node": nd.addr, "write": kind, "from": from.String(), "to": ca.State.String(), "role": role,
 		"epoch_before": fromEpoch, "epoch_after": ca.Epoch}
 	// (a) legal edge for the role
@@ -488,10 +509,12 @@ func (h *c08H) step(o c08Opt, f func() error) error {
 	pre := h.view(o.target)
 	gid := vfdGid()
 	var err error
-	panicked := ""
+	panicked, where, stack := "", "", ""
 	func() {
 		defer func() {
 			if r := recover(); r != nil {
+				stack = string(debug.Stack())
+				where = vfdPanicWhere(stack)
 				panicked = fmt.Sprint(r)
 				err = fmt.Errorf("panic: %v", r)
 			}
@@ -536,8 +559,12 @@ func (h *c08H) step(o c08Opt, f func() error) error {
 		}
 	}
 	if panicked != "" {
-		h.run.Violation(fmt.Sprintf("C08/step-panicked/%s/%s", o.kind, o.class),
-			fmt.Sprintf("%s on %s panicked: %s", o.kind, o.target.addr, panicked), h.info(nil))
+		if len(stack) > 2500 {
+			stack = stack[:2500]
+		}
+		h.run.Violation(fmt.Sprintf("C08/step-panicked/%s/%s/%s", o.kind, o.class, where),
+			fmt.Sprintf("%s (%s) on %s (%s) made the real Process panic in %s: %s", o.kind, o.class, o.target.addr, c08Desc(pre), where, panicked),
+			h.info(map[string]any{"stack": stack}))
 	}
 	// (d) an error answer leaves the finished record byte-identical (a completion by the execution goroutine that
 	// lands during the call is a foreign write and has been judged by the tap)
@@ -713,13 +740,14 @@ func (h *c08H) execute(p *c08Proposal, drop bool) {
 	for i := 0; i < h.rng.Range(0, 3); i++ {
 		h.noise(p)
 	}
-	out := vfdWaitOutcome(p.participants(), p.epoch, c08Kickoff+4*c08Phase+8*time.Second)
+	h.waitExecutions()
 	nC, nF, nP := 0, 0, 0
-	for _, r := range out {
-		switch r {
-		case "complete":
+	for _, nd := range p.participants() {
+		v := h.view(nd)
+		switch {
+		case v.fin != nil && v.fin.Epoch == p.epoch:
 			nC++
-		case "failed":
+		case v.cur != nil && v.cur.State == Failed && v.cur.Epoch == p.epoch:
 			nF++
 		default:
 			nP++
@@ -727,9 +755,26 @@ func (h *c08H) execute(p *c08Proposal, drop bool) {
 	}
 	h.run.Count("execution_outcomes_complete", int64(nC))
 	h.run.Count("execution_outcomes_failed", int64(nF))
-	h.run.Count("execution_outcomes_neither", int64(nP))
+	h.run.Count("execution_outcomes_not_executing", int64(nP))
 	h.net.setDropBundles(false)
 	h.net.drain(10 * time.Second)
+}
+
+// waitExecutions: executions in flight end by themselves (complete or failed). Pacing only.
+func (h *c08H) waitExecutions() {
+	deadline := time.Now().Add(c08Kickoff + 4*c08Phase + 10*time.Second)
+	for time.Now().Before(deadline) {
+		busy := false
+		for _, nd := range h.all {
+			if v := h.view(nd); v.cur != nil && v.cur.State == Executing {
+				busy = true
+			}
+		}
+		if !busy {
+			return
+		}
+		time.Sleep(15 * time.Millisecond)
+	}
 }
 
 // ---------------------------------------------------------------- workload: invalid / forged / replayed
@@ -1161,7 +1206,9 @@ func (h *c08H) abortAll() {
 	for pass := 0; pass < 2; pass++ {
 		for _, nd := range h.all {
 			v := h.view(nd)
-			if v.cur == nil || !c08ProposalPhase[v.cur.State] {
+			// Left: a leaver of an attempt that did not complete for the others still holds that attempt; the
+			// operator abandons it with abort like any other in-flight state
+			if v.cur == nil || !(c08ProposalPhase[v.cur.State] || v.cur.State == Left) {
 				continue
 			}
 			if pass == 0 && v.cur.State != Proposing {
@@ -1174,22 +1221,9 @@ func (h *c08H) abortAll() {
 
 // ---------------------------------------------------------------- (f) recoverability
 
-func (h *c08H) recover() {
+func (h *c08H) recovery() {
 	run := h.run
-	// executions in flight end by themselves (complete or failed)
-	deadline := time.Now().Add(c08Kickoff + 4*c08Phase + 10*time.Second)
-	for time.Now().Before(deadline) {
-		busy := false
-		for _, nd := range h.all {
-			if v := h.view(nd); v.cur != nil && v.cur.State == Executing {
-				busy = true
-			}
-		}
-		if !busy {
-			break
-		}
-		time.Sleep(20 * time.Millisecond)
-	}
+	h.waitExecutions()
 	h.net.setDropBundles(false)
 	h.net.drain(10 * time.Second)
 	h.abortAll()
